@@ -89,10 +89,13 @@ type caseT struct {
 	Token  int `json:"token"`
 	TSARev int `json:"tsa_rev"`
 	Format int `json:"format"`
+	// Prior 1: the same verifier instance verified, immediately before, a signature of the same chain, scheme and
+	// format that is fine on every clock (signed 5 days ago, no expiry, valid countersignature at -5d).
+	Prior int `json:"prior"`
 }
 
 func (c caseT) String() string {
-	return fmt.Sprintf("%s %s verifyTimestamp=%q leaf=%s ca=%s signed@%s %s %s %s %s", []string{"x509", "signingAuthority"}[c.Scheme], tsaPolicies[c.TSAPol], options[c.Option], windows[c.LeafW].Name, windows[c.CAW].Name, signTimes[c.Sign].Name, expiries[c.Expiry].Name, tokens[c.Token].Name, tsaRevs[c.TSARev], []string{"jws", "cose"}[c.Format])
+	return map[int]string{0: "", 1: "[after a fine signature on the same verifier] "}[c.Prior] + fmt.Sprintf("%s %s verifyTimestamp=%q leaf=%s ca=%s signed@%s %s %s %s %s", []string{"x509", "signingAuthority"}[c.Scheme], tsaPolicies[c.TSAPol], options[c.Option], windows[c.LeafW].Name, windows[c.CAW].Name, signTimes[c.Sign].Name, expiries[c.Expiry].Name, tokens[c.Token].Name, tsaRevs[c.TSARev], []string{"jws", "cose"}[c.Format])
 }
 
 type world struct {
@@ -246,9 +249,20 @@ func (w *world) run(r *hx.Run, c caseT) {
 		r.Infra("verifier: %v", err)
 		return
 	}
+	if c.Prior == 1 {
+		pc := caseT{Scheme: c.Scheme, LeafW: c.LeafW, CAW: c.CAW, Token: 1, Format: c.Format}
+		r.Eval(1)
+		_, _ = v.Verify(ctx, w.desc, w.envelope(pc), notation.VerifierVerifyOptions{ArtifactReference: "reg.io/r@" + w.desc.Digest.String(), SignatureMediaType: forge.Formats[c.Format]})
+		tsaValidator.Calls = nil
+	}
 	r.Eval(1)
 	outcome, verr := v.Verify(ctx, w.desc, w.envelope(c), notation.VerifierVerifyOptions{ArtifactReference: "reg.io/r@" + w.desc.Digest.String(), SignatureMediaType: forge.Formats[c.Format]})
-	bad := func(key, what string) { r.Violation(key, what+" | "+c.String(), c) }
+	bad := func(key, what string) {
+		if c.Prior == 1 {
+			key += ":after-earlier-verification-on-same-verifier"
+		}
+		r.Violation(key, what+" | "+c.String(), c)
+	}
 	want := w.model(c)
 	if outcome == nil {
 		bad("nil-outcome", fmt.Sprint(verr))
@@ -348,11 +362,16 @@ func main() {
 	var rec func(i int, cur []int, dev int)
 	rec = func(i int, cur []int, dev int) {
 		if i == len(sizes) {
-			c := caseT{cur[0], cur[1], cur[2], cur[3], cur[4], cur[5], cur[6], cur[7], cur[8], cur[9]}
+			c := caseT{Scheme: cur[0], TSAPol: cur[1], Option: cur[2], LeafW: cur[3], CAW: cur[4], Sign: cur[5], Expiry: cur[6], Token: cur[7], TSARev: cur[8], Format: cur[9]}
 			if e := expiries[c.Expiry]; e.Set && e.Off <= signTimes[c.Sign].Off {
 				return // expiry not after the signing time: refused as malformed before any clock is consulted
 			}
 			cases = append(cases, c)
+			// the same case after an unproblematic signature on the same verifier instance (cases with <= 3 deviations)
+			if dev >= 1 && dev <= 3 {
+				c.Prior = 1
+				cases = append(cases, c)
+			}
 			return
 		}
 		for v := 0; v < sizes[i]; v++ {
